@@ -48,6 +48,9 @@ type JSONValueNode struct {
 	parent       ValueNode
 	identifiedAs string
 	data         reflect.Value
+
+	// store puts a new value of this node into the object or array it was taken from; nil for the root
+	store func(value reflect.Value)
 }
 
 // IdentifiedAs will return the node label
@@ -126,7 +129,12 @@ func (vn *JSONValueNode) GetChildNodeByIndex(index int) (ValueNode, error) {
 		return nil, err
 	}
 
-	return vn.ContinueWithValue(val, fmt.Sprintf("[%d]", index)), nil
+	child := vn.ContinueWithValue(val, fmt.Sprintf("[%d]", index))
+	child.(*JSONValueNode).store = func(value reflect.Value) {
+		vn.data.Index(index).Set(value)
+	}
+
+	return child, nil
 }
 
 // SetArrayValueAt sets this node array element specified at index with new value. User should be careful to not set element with out of bound index.
@@ -146,6 +154,10 @@ func (vn *JSONValueNode) AppendValue(value []reflect.Value) error {
 		return fmt.Errorf("not an array or slice")
 	}
 	vn.data = reflect.Append(vn.data, value...)
+	if vn.store != nil {
+		// the longer slice is another value than the one the enclosing object or array holds
+		vn.store(vn.data)
+	}
 
 	return nil
 }
@@ -204,7 +216,12 @@ func (vn *JSONValueNode) GetChildNodeBySelector(index reflect.Value) (ValueNode,
 		return nil, err
 	}
 
-	return vn.ContinueWithValue(val, fmt.Sprintf("[%s]", index.String())), nil
+	child := vn.ContinueWithValue(val, fmt.Sprintf("[%s]", index.String()))
+	child.(*JSONValueNode).store = func(value reflect.Value) {
+		vn.data.SetMapIndex(index, value)
+	}
+
+	return child, nil
 }
 
 // IsObject returns true if this node is an object or map.
@@ -389,7 +406,12 @@ func (vn *JSONValueNode) GetChildNodeByField(field string) (ValueNode, error) {
 		return nil, err
 	}
 
-	return vn.ContinueWithValue(val, field), nil
+	child := vn.ContinueWithValue(val, field)
+	child.(*JSONValueNode).store = func(value reflect.Value) {
+		vn.data.SetMapIndex(reflect.ValueOf(field), value)
+	}
+
+	return child, nil
 }
 
 // IsTime return true if the value of this node is of type string with specified DateTimeLayout
